@@ -61,12 +61,18 @@ type blockingCM struct {
 	tb *bed
 }
 
+// ridMarker marks the requests of the harness (Index.ID); Index.Height carries the request id.
+var ridMarker = types.BlockID{0xC1, 0x18, 0x5E, 0xED}
+
 // Headers is what the RPCSendHeaders handler calls: index.Height carries the request id.
 func (b *blockingCM) Headers(index types.ChainIndex, max uint64) ([]types.BlockHeader, uint64, error) {
 	tb := b.tb
 	rid := index.Height
 	tb.mu.Lock()
 	ri := tb.rpcs[rid]
+	if index.ID != ridMarker {
+		ri = nil // not one of ours: e.g. an undecodable request whose first bytes happen to parse
+	}
 	if ri == nil {
 		tb.mu.Unlock()
 		return b.Manager.Headers(index, max)
@@ -566,7 +572,7 @@ func (tb *bed) sendEnding(p *rawPeer, ending int) *rpcInfo {
 	st, err := p.t.DialStream()
 	if err == nil {
 		st.SetDeadline(time.Now().Add(2 * time.Minute))
-		req := &gateway.RPCSendHeaders{Index: types.ChainIndex{Height: ri.rid}, Max: 1}
+		req := &gateway.RPCSendHeaders{Index: types.ChainIndex{Height: ri.rid, ID: ridMarker}, Max: 1}
 		if err = st.WriteID(req); err == nil {
 			err = st.WriteRequest(req)
 		}
